@@ -7,17 +7,17 @@ RULE = ('C19 runs on spied, instrumented HsmWithQueues and ActiveObject charts: 
         'after every step the number of new full.trace records must be 1 iff the reference model says the event caused a transition '
         '(including self-transitions and guard-fired transitions after declines), 0 for hooks, declined-and-ignored and unknown events; '
         'the record must be (previous rest state, signal, new rest state); at the end the record list must equal the expected list cut '
-        'to the 500-record ring (long runs cross it). distinct_nontrivial = distinct (host, transitions, non-transitions) per run')
+        'to the 500-record ring (long runs cross it); clear_trace() calls by the client in between restart the expected list. distinct_nontrivial = distinct (host, transitions, non-transitions) per run')
 CASES = {'quick': 2500, 'thorough': 150000}
-BUDGET = {'quick': 40, 'thorough': 300}
-REQUIRE = {'trace_transitions': 5000, 'trace_non_transitions': 5000, 'trace_ring_crossed': 1}
+BUDGET = {'quick': 150, 'thorough': 300}
+REQUIRE = {'trace_transitions': 5000, 'trace_non_transitions': 5000, 'trace_ring_crossed': 1, 'clear_trace_calls': 100}
 ASSUME = ['steps stay below the 250-tuple per-step ring']
 
 
 def run_case(ctx, n):
   rng = ctx.rng('kind', n)
   long_run = rng.random() < 0.08
-  r = qcheck.run_qcase(ctx, n, ('C20',), with_queries=n % 2 == 0, long_run=long_run, n_ops=1500 if n % 500 == 7 else None)
+  r = qcheck.run_qcase(ctx, n, ('C20',), with_queries=n % 2 == 0, long_run=long_run, n_ops=1500 if n % 500 == 7 else None, clears=True)
   if r is None:
     return
   res, spec, cfg = r
